@@ -6,9 +6,12 @@ PROPS["C19"] = {
             "and sentences with deleted/replaced/inserted tokens, with random blanks; the recovering parser runs with handlers that never stop, stop at the first and at the second error",
     "modelled": "go_parser.go.tmpl with IsRecovering: the main loop's error branch (recovering counter, lastErr, handler), recoverFromError (recoverPos, afterErr bit set, skipBrokenCode, reduceAll incl. its stack2 simulation, error range computation, pushing the error entry). "
                 "Not modelled: recoveryScope markers, pending reported tokens and invalid-token coverage, parsers/js/parser_impl.go",
-    "partial": "proved: transparency, error positions, termination of the recovery loop. Not proved: termination of the whole recovering parse and panic-freedom of reduceAll (monitored under a time limit / recover()).",
+    "partial": "proved: transparency, error positions, termination of the recovery loop, progress after recovery (the loop replays reduceAll's reductions and shifts the token; each episode consumes a token or ends the parse), "
+               "termination of the whole recovering parse RELATIVE to termination of the plain loop's reduction sequences. An explicit fuel bound ((|input|+1)*(2R+3)+R+1 iterations) is proved under a uniform bound R on plain reduction sequences (C19_recovering_parse_fuel_bound). Not proved: those hypotheses about the plain loop's reductions from the C01 validator conditions, and panic-freedom of reduceAll (monitored under a time limit / recover()).",
     "level_text": "Coq theorems (Props/C19.v) for EVERY table set, event table, input, error handler and fuel: on inputs the loop accepts without recovery, the recovering loop accepts with the same stack and events and never calls the handler; "
                   "every reported error is the range of an input token (or of end-of-input) and error offsets never decrease; the loop inside recoverFromError terminates. "
+                  "Progress (for LALR(1) tables whose reduceAll shift test agrees with the loop; both hold for the default and the optimized encoding): after a successful recoverFromError the main loop performs exactly the reductions reduceAll simulated on its state stack (at most 4*(|stack|+1)+64, input and error list untouched) and then shifts the next token or is in the end state, "
+                  "so every recovery episode consumes an input token or ends the parse; consequently the recovering parse terminates for every input and handler whenever the plain loop's reduction sequences do (C19_recovering_parse_terminates). "
                   "The model is compared with generated recovering parsers (result, handler calls, listener events) under three handler policies, and an independent oracle checks on the implementation's answers: no crash or hang, error ranges inside the input and ordered, "
                   "and — against a parser generated from the same grammar without its error rules — no error and identical events/result on every sentence.",
     "level_note": "Trusted: Coq kernel, extraction, glue. 'Without recovery' is realised twice: as the plain loop on the same tables (theorem) and as the grammar minus its error rules (oracle).",
